@@ -200,6 +200,7 @@ func runC18(c *Ctx) {
 	c.c18Routing()
 	c.c18Output()
 	c.c18PipesDrained()
+	c.c18RunsDoNotOverlap()
 	c.c18StopRecheck()
 }
 
@@ -550,4 +551,126 @@ func (c *Ctx) c18PipesDrained() {
 				"exec.Cmd.WaitDelay is set: once the child is gone, Wait gives the copying of its pipes that long and then closes them — the lines a slow logger had not consumed yet (or that a background part of the child's script writes later) are dropped, and a child that exited 0 is reported failed with 'WaitDelay expired before I/O complete'")
 		})
 	}
+}
+
+// c18RunsDoNotOverlap (M9): "Execute returns nil exactly when the child exits with status 0". What is left of a run — the
+// goroutine watching its context — cancels every context registered in the store when it wakes up. A new run stays clear of
+// it only if (a) the monitoring is marked as on before that goroutine is started (so that the next run can see it), (b) the
+// goroutine waits on the context of its own run, bound when it is started, not on whatever context is current when it gets
+// to run, and (c) the context of a run is created in one place only — newSubprocessMonitoring and RunMonitoring, the
+// latter only once IsOn() has answered false — and not by Execute()/Start() before they wait.
+func (c *Ctx) c18RunsDoNotOverlap() {
+	c.rule("M9", "runs of one subprocess do not overlap: the monitoring is marked on before its goroutine starts, the goroutine waits on the context bound at its start, and a run's context is only created by RunMonitoring once the previous monitoring is over", 3)
+	reset := c.fn(spPkg, "(*subprocessMonitoring).Reset")
+	runMon := c.fn(spPkg, "(*subprocessMonitoring).RunMonitoring")
+	start := c.fn(spPkg, "(*subprocessMonitoring).runProcessMonitoring")
+	if reset == nil || runMon == nil || start == nil {
+		return
+	}
+	c.FuncsSeen[fname(runMon)] = true
+	c.FuncsSeen[fname(start)] = true
+	// (c) who may create the context of a run
+	bad := ""
+	n := 0
+	for _, f := range c.srcFuncs(spPkg) {
+		allInstrs(f, func(in ssa.Instruction) {
+			cc := callCommon(in)
+			if cc == nil || staticCallee(cc) != reset {
+				return
+			}
+			n++
+			switch outermost(f).Name() {
+			case "newSubprocessMonitoring", "RunMonitoring":
+			default:
+				bad = c.ipos(in) + " (" + fname(outermost(f)) + ")"
+			}
+		})
+	}
+	c.check(n > 0 && bad == "", "M9", spPkg+"/context-of-a-run-created-in-one-place", c.pos(reset.Pos()), "Reset() is called by the constructor and by RunMonitoring only",
+		"the context of a run is also created at "+bad+": that clears the 'stopping' mark and registers the new context while the goroutine of the previous run may still be about to cancel everything registered — the new run is cancelled although nobody asked (Execute() in a loop on `true` returns 'cancelled' one time out of three)")
+	// … and RunMonitoring only gets there once IsOn() answered false
+	isOnFalse := func(b *ssa.BasicBlock, k int) bool {
+		ifi, ok := b.Instrs[len(b.Instrs)-1].(*ssa.If)
+		if !ok {
+			return false
+		}
+		v, ts := boolTest(ifi)
+		cl, isCall := v.(*ssa.Call)
+		if !isCall {
+			return false
+		}
+		g := staticCallee(&cl.Call)
+		return g != nil && g.Name() == "IsOn" && k == 1-ts
+	}
+	hit := pathPruned(runMon, nil, func(ssa.Instruction) bool { return false }, func(in ssa.Instruction) bool {
+		cc := callCommon(in)
+		return cc != nil && staticCallee(cc) == reset
+	}, isOnFalse)
+	c.check(hit == nil, "M9", fname(runMon)+"/new-context-after-the-previous-monitoring", c.pos(runMon.Pos()), "Reset() is reached only where IsOn() answered false",
+		"RunMonitoring can create the context of the new run ("+c.iposOr(hit)+") without IsOn() having answered false: the goroutine of the previous run is still there and cancels it")
+	// (a) and (b)
+	var goi *ssa.Go
+	allInstrs(start, func(in ssa.Instruction) {
+		if g, ok := in.(*ssa.Go); ok {
+			goi = g
+		}
+	})
+	if goi == nil {
+		c.violate("M9", fname(start)+"/goroutine", c.pos(start.Pos()), "runProcessMonitoring no longer starts the monitoring goroutine")
+		return
+	}
+	marked := false
+	allInstrs(start, func(in ssa.Instruction) {
+		cl, ok := in.(*ssa.Call)
+		if !ok || calleeFull(&cl.Call) != "(*go.uber.org/atomic.Bool).Store" || len(cl.Call.Args) < 2 {
+			return
+		}
+		if b, isB := constBool(cl.Call.Args[1]); !isB || !b {
+			return
+		}
+		if fa, ok := cl.Call.Args[0].(*ssa.FieldAddr); ok {
+			if so := structOf(fa.X.Type()); so != nil && so.Field(fa.Field).Name() == "monitoringOn" && dominates(cl, goi) {
+				marked = true
+			}
+		}
+	})
+	c.check(marked, "M9", fname(start)+"/marked-on-before-the-goroutine", c.ipos(goi), "monitoringOn is set before the goroutine is started",
+		"the monitoring is only marked as on by the goroutine itself, whenever it gets to run: until then the next run believes there is nothing to wait for, creates its context, and the late goroutine cancels it")
+	var lit *ssa.Function
+	switch v := goi.Call.Value.(type) {
+	case *ssa.MakeClosure:
+		lit, _ = v.Fn.(*ssa.Function)
+	case *ssa.Function:
+		lit = v
+	}
+	boundCtx := false
+	why := "the goroutine does not wait on a context"
+	if lit != nil {
+		allInstrs(lit, func(in ssa.Instruction) {
+			u, ok := in.(*ssa.UnOp)
+			if !ok || u.Op != token.ARROW {
+				return
+			}
+			done, ok := u.X.(*ssa.Call)
+			if !ok || !done.Call.IsInvoke() || done.Call.Method.Name() != "Done" {
+				return
+			}
+			bound := false
+			switch x := done.Call.Value.(type) {
+			case *ssa.Parameter, *ssa.FreeVar:
+				bound = true
+			case *ssa.UnOp:
+				_, bound = x.X.(*ssa.FreeVar)
+			}
+			if in, ok := resolveValue(done.Call.Value).(ssa.Instruction); ok && in.Parent() != lit {
+				bound = true // a value computed by the function that starts the goroutine
+			}
+			if bound {
+				boundCtx = true
+			} else {
+				why = "the goroutine waits on a context it obtains when it gets to run (" + c.ipos(done) + "), which is the context of the next run if that one was created in the meantime"
+			}
+		})
+	}
+	c.check(boundCtx, "M9", fname(start)+"/waits-on-the-context-of-its-run", c.ipos(goi), "the goroutine waits on a context bound when it is started", why)
 }
